@@ -39,6 +39,8 @@ Definition check_case (c : case) : bool :=
   | 1%N => check_trace (cache_step mem_backend) (cache_init mem_backend mem_init) (c_trace c)
   | 2%N => check_trace sp_step sp_init (c_trace c)
   | 3%N => check_trace (cache_step sp_backend) (cache_init sp_backend sp_init) (c_trace c)
+  | 4%N => check_trace (cache_step (cache_backend mem_backend))
+             (cache_init (cache_backend mem_backend) (cache_init mem_backend mem_init)) (c_trace c)
   | _ => false
   end.
 
